@@ -149,7 +149,7 @@ TReader ==
 TCloseSocket == spc = "closeSock" /\ CloseSocket /\ UNCHANGED <<l, early, mend>>
 
 TCancel ==
-  /\ Has /\ Line.e = "cancel"
+  /\ Has /\ Line.e = "cancel" /\ att > 0
   /\ IF ctxDone[att] THEN Stutter
      ELSE \/ Last(Cancel)
           \/ spc = "connect" /\ (K(ConnectNow) \cdot Last(Cancel))
